@@ -35,7 +35,17 @@ notes={"C04-a":"C06 (after the `ch_outer_sni_changed` retry variant was added; C
  "C07-f":"C07 (after the HelloRetryRequest mode was added: HRR, then (CCS and) a retried hello followed by more client bytes, under every chunking)",
  "C12-f":"C12 (after the decoder was given a buffer of exactly the message's size, plus the spare-capacity differential and the crafted SvcParams source)",
  "C14-f":"C14 (after service records naming the origin host itself as their target were generated)",
- "C20-f":"C20 (after stored values that already carry the list being published, in any syntactic form, were generated)"}
+ "C20-f":"C20 (after stored values that already carry the list being published, in any syntactic form, were generated)",
+ "C02-g":"C02 (after keys with unparseable configs were inserted into the server's key list for the negative checks)",
+ "C05-g":"C05 (after GREASE extensions with an enc the KEM refuses - wrong length, all-zero point - were generated)",
+ "C06-g":"C06 (after the retried hello's extensions, including those referenced through ech_outer_extensions, were allowed to differ from the first flight's)",
+ "C08-g":"C08 (after the `illegal` stage was added: authentic hellos with rule violations from the C04 generator, no-panic oracle); C04 caught it as it was",
+ "C10-g":"C10 (after the peer was allowed not to read while NewConn is blocked: writes without a deadline block; a virtual-time deadlock is reported as 'never returns')",
+ "C11-g":"C11 (after lists sized around the 65535-byte limit of the length prefix were added)",
+ "C16-g":"C14 as it was; C16 after upstream failures with response codes outside 1..5 (6, 9, 16, 23) were added",
+ "C17-g":"C17 (after the Dialer was also driven through Transport.RoundTrip and an empty non-nil ECH list stopped counting as a list)",
+ "C18-g":"C18 (after the leak oracle was made prompt: no Dialer goroutine alive at the first instant at which Dial has returned and no attempt is outstanding)",
+ "C19-g":"C19 (after explicit port 80 origins, alone and beside the same host's default-port origin, were generated)"}
 rows=["| Seed | Breaks | Change (summary) | Needs to manifest | Caught by (quick tier) |","|---|---|---|---|---|"]
 for d in sorted(glob.glob('/verif/seeded/*/meta.json')):
     m=json.load(open(d)); sid=m['seed_id']
@@ -51,6 +61,6 @@ end=s.rindex("\n",0,end)+1
 s=s[:start]+"\n".join(rows)+"\n\n"+s[end:]
 import re
 s=re.sub(r"\w+ rounds of sub-agents produced \d+ distinct confirmed changes \(duplicates of an\nearlier idea were dropped\)\. \w+ of them were missed by the version of the\nchecks that existed when they arrived and led to the strengthenings named in\nthe last column; all \d+ are now reported by the quick tier at `VERIF_SEED=1`\.",
- f"Six rounds of sub-agents produced {n} distinct confirmed changes (duplicates of an\nearlier idea were dropped). {len(notes)} of them were missed by the version of the\nchecks that existed when they arrived and led to the strengthenings named in\nthe last column; all {n} are now reported by the quick tier at `VERIF_SEED=1`.", s)
+ f"Seven rounds of sub-agents produced {n} distinct confirmed changes (duplicates of an\nearlier idea were dropped). {len(notes)} of them were missed by the version of the\nchecks that existed when they arrived and led to the strengthenings named in\nthe last column; all {n} are now reported by the quick tier at `VERIF_SEED=1`.", s)
 open('/verif/DESIGN.md','w').write(s)
 print(n, len(notes))
